@@ -57,6 +57,26 @@ def check_case(case, res):
         n = Netlist(copy.deepcopy(doc))
     except Exception as e:  # noqa
         raise RuntimeError(f'C04 harness: well-formed document rejected {doc}: {type(e).__name__}: {e}')
+    hist = case.get('hist')
+    if hist:
+        # the netlist reaches the state that is written through the library's own API after loading (what the allocation
+        # and floorplanning stages do before they write their result): it is still a netlist, and write -> read must
+        # reproduce it
+        attrs['hist'] = hist
+        try:
+            if hist == 'squares':
+                n.create_squares()
+            else:
+                m2r = {}
+                for nm, node in doc['Modules'].items():
+                    rl = node.get('rectangles')
+                    if rl:
+                        m2r[nm] = [list(rl)] if isinstance(rl[0], (int, float)) else [list(r) for r in rl]
+                n.assign_rectangles(m2r)
+        except Exception as e:  # noqa
+            res.violation('history-raises', case, attrs, f'{hist} succeeds', f'{type(e).__name__}: {e}')
+            res.case('history-raised')
+            return
     m0 = nd.loaded_model(n)
     try:
         text = n.write_yaml()
@@ -118,6 +138,16 @@ def run_shard(shard, tier, res):
         for j, nets in enumerate(nets_for(k, tier, full)):
             reset_frame_state()
             check_case(dict(mods=list(vt), nets=[[list(m), w] for m, w in nets], file=(j == 0)), res)
+            if j == 0 or (k == 2 and j == 1):
+                nodes = [nd.VARIANTS[i][1] for i in vt]
+                if any('rectangles' in nd_ for nd_ in nodes):
+                    reset_frame_state()
+                    check_case(dict(mods=list(vt), nets=[[list(m), w] for m, w in nets], hist='assign'), res)
+                # default squares can be created when every module without rectangles has a centre (terminals have no area)
+                if any('rectangles' not in nd_ for nd_ in nodes) and \
+                        all('rectangles' in nd_ or ('center' in nd_ and not nd_.get('terminal')) for nd_ in nodes):
+                    reset_frame_state()
+                    check_case(dict(mods=list(vt), nets=[[list(m), w] for m, w in nets], hist='squares'), res)
     res.samples.append(dict(mods=list(tl[-1]), nets=[[[0, 1], 0.5]] if len(tl[-1]) > 1 else []))
 
 
